@@ -6,7 +6,7 @@
 (* Also used to enumerate inputs for the implementation (the Dump ops).          *)
 (***************************************************************************)
 EXTENDS CliffordMachine, TLC, Json
-CONSTANTS N, Conn, Names1, Names2, Mode
+CONSTANTS N, Conn, Names1, Names2, EmitAt
 VARIABLES hist
 vars == <<tab, cost, lvl, hist>>
 Q == 0..(N - 1)
@@ -33,4 +33,7 @@ NextDump == \E g \in AllGates :
                /\ GateStep(N, Allowed, g) /\ hist' = Append(hist, g)
                /\ PrintT(ToJson([k |-> "T", src |-> tab, g |-> g, dst |-> tab']))
 SpecDump == Init /\ [][NextDump]_vars
+(* simulation mode (-simulate -depth D): emit the state reached at level EmitAt together with its      *)
+(* history; the history is the input program, tab is the specification's own result for it            *)
+EmitBehaviour == (TLCGet("level") = EmitAt) => PrintT(ToJson([k |-> "B", hist |-> hist, tab |-> tab]))
 =============================================================================
